@@ -8,11 +8,7 @@ namespace ALV.C20
 variable {K : Type} [Field K] [LinearOrder K] [IsStrictOrderedRing K]
 set_option linter.unusedSectionVars false
 
-/-- the specification as a recursion over the current sign `s ∈ {-1, 0, 1}` -/
-def zFrom (h : K) : K → List K → List Nat
-  | _, [] => []
-  | s, x :: xs =>
-    (if crossing h s x then 1 else 0) :: zFrom h (if outside h x then sgn3 x else s) xs
+/- `zFrom` (the recursion over the current sign) is defined in `ALV.Spec.C20`. -/
 
 theorem curSign_snoc (h fs : K) (pre : List K) (x : K) :
     curSign h fs (pre ++ [x]) = if outside h x then sgn3 x else curSign h fs pre := by
